@@ -132,6 +132,8 @@ def _one_text(ctx, text, context="metadata", envs=None):
                        "group": "merged" if merged else "unmerged"},
                       live={"marker": m, "env": e, "text": text})
             return
+    if hasattr(ctx, "c03_kept") and len(ctx.c03_kept) < 300 and ctx.cases % 9 == 0 and context == "metadata":
+        ctx.c03_kept.append((text, m, ref, [dict(e) for e in envs[:12]], ctx.stratum))
     if len(ctx.samples) < 6 and ctx.cases % 50 == 7:
         ctx.sample({"text": text, "parsed_as": MM.mtext(m), "environments": len(envs), "stratum": ctx.stratum})
 
@@ -275,6 +277,7 @@ def _small_scope(ctx):
 
 def run(ctx):
     quick = ctx.tier == "quick"
+    ctx.c03_kept = []
     _atom_table(ctx)
     _small_scope(ctx)
     _lock_file(ctx)
@@ -283,6 +286,28 @@ def run(ctx):
     _stratum(ctx, "prelit", MW.Cfg(prelit=True, extras=False), 150 if quick else 2000)
     _stratum(ctx, "pyin", MW.Cfg(pyin=True), 100 if quick else 1500)
     _stratum(ctx, "revin", MW.Cfg(rev_in=True, few_vars=["sys_platform", "os_name"]), 100 if quick else 1500)
+    # marker objects kept from earlier are evaluated again at the end, environments in reverse order: the answer of an
+    # object must not depend on what it (or anything else) was asked before
+    for text, m, ref, envs, stratum in ctx.c03_kept:
+        ctx.stratum = stratum
+        ctx.current_case = {"kind": "text", "text": text, "stratum": stratum, "context": "metadata"}
+        for e in reversed(envs):
+            with oracle():
+                try:
+                    exp = ref.evaluate(dict(e))
+                except Exception:  # noqa: BLE001
+                    continue
+            try:
+                got = m.evaluate(dict(e))
+            except Exception:  # noqa: BLE001
+                continue
+            bump("retained-marker")
+            if bool(got) != bool(exp):
+                violation(PROP, "text-vs-packaging", "a marker object kept from earlier evaluates differently from packaging when asked again",
+                          {"text": text, "parsed": MM.mtext(m), "env": MW.env_brief(e, MW.names_of(m)), "got": bool(got),
+                           "packaging": bool(exp), "stratum": stratum, "context": "metadata", "group": "retained"},
+                          live={"marker": m, "env": e, "text": text})
+                break
     ctx.stratum = "main"
     MM.clear_caches()
     ctx.current_case = None
